@@ -774,7 +774,7 @@ func (c *VCheck) snapshotAt(ids []string, scopes [][]string, at int64, current b
 		}
 	}
 	for _, q := range c.relQueries(ids, []string{"p", "*"}, scopes) {
-		for _, limit := range []int{0, 1} {
+		for _, limit := range []int{0, 1, 2} {
 			qat := at
 			if current {
 				qat = 0
@@ -792,6 +792,24 @@ func (c *VCheck) snapshotAt(ids []string, scopes [][]string, at int64, current b
 		}
 	}
 	return in
+}
+
+// kfWildcardIncoming: the input class of the recorded C03 known finding, for point-in-time queries: a wildcard
+// incoming query (key "<start>/*/in/...") whose differing entries all concern sources that have at some time
+// carried two or more predicates to the start entity.
+func (h *VHist) kfWildcardIncoming(key string, a, b []string) bool {
+	f := strings.Split(key, "/")
+	if len(f) < 3 || f[1] != "*" || f[2] != "in" {
+		return false
+	}
+	am, bm := map[string]int{}, map[string]bool{}
+	for _, x := range a {
+		am[x]++
+	}
+	for _, x := range b {
+		bm[x] = true
+	}
+	return h.onlyMultiPredSources(relQuery{Start: f[0], Pred: "*", Inverse: true}, am, bm)
 }
 
 // CompareInstant compares a point-in-time evaluation with the recorded truth.
@@ -814,10 +832,31 @@ func (c *VCheck) CompareInstant(truth, got *VInstant) {
 	}
 	for k, w := range truth.Rel {
 		g := got.Rel[k]
+		if i := strings.Index(k, "/limit="); i >= 0 && !strings.HasSuffix(k, "/limit=0") {
+			// "a paged query continued through its continuation tokens returns the result set as of t":
+			// the pages together against the unpaged truth of that instant (as sets)
+			full, ok := truth.Rel[k[:i]+"/limit=0"]
+			if ok && !(len(full) == 1 && full[0] == "error") && !(len(g) == 1 && g[0] == "error") {
+				gs, fs := map[string]bool{}, map[string]bool{}
+				for _, x := range g {
+					gs[x] = true
+				}
+				for _, x := range full {
+					fs[x] = true
+				}
+				if !reflect.DeepEqual(gs, fs) && c.H.kfWildcardIncoming(k, setKeys(gs), setKeys(fs)) {
+					c.fail("C06:KF-incoming-wildcard-multipred:"+truth.Label+":"+k, fmt.Sprintf("paged wildcard incoming query %s as of instant %s returns the set %v; the result set of that instant was %v", k, truth.Label, setKeys(gs), setKeys(fs)), nil)
+				} else if !reflect.DeepEqual(gs, fs) {
+					c.fail("C06:rel-paged-set:"+truth.Label+":"+k, fmt.Sprintf("paged relationship query %s as of instant %s returns the set %v; the result set of that instant was %v", k, truth.Label, setKeys(gs), setKeys(fs)), nil)
+				}
+			}
+		}
 		if len(w) == 0 && len(g) == 0 {
 			continue
 		}
-		if !reflect.DeepEqual(g, w) {
+		if !reflect.DeepEqual(g, w) && c.H.kfWildcardIncoming(k, g, w) {
+			c.fail("C06:KF-incoming-wildcard-multipred:"+truth.Label+":"+k, fmt.Sprintf("wildcard incoming query %s as of instant %s returns %v; at that instant the current-state query returned %v", k, truth.Label, g, w), nil)
+		} else if !reflect.DeepEqual(g, w) {
 			c.fail("C06:rel:"+truth.Label+":"+k, fmt.Sprintf("relationship query %s as of instant %s returns %v; at that instant the current-state query returned %v", k, truth.Label, g, w), nil)
 		}
 	}
